@@ -425,6 +425,9 @@ class C15(core.PropertyCheck):
                     short = rng.choice(["--opt", "-v", "x y", "-o", "-O", "-o", "-O"])
                     dom, nm = rng.choice([("std", "option"), ("mongodb", "setting"), ("mongodb", "dbcommand"), ("py", "method")])
                     ids = [short, rng.choice(["prog", "a.b"]) + "." + short] if rng.random() < 0.5 else [rng.choice(pool)]
+                    if rng.random() < 0.25:
+                        # a directive argument is taken as the author wrote it: runs of blanks, a line break in a long signature
+                        ids = [rng.choice(["foo  bar", "foo\n   bar", "write  concern", "a \t b", "db.coll.find(\n  q)"])]
                     items.append({"t": "obj", "domain": dom, "name": nm, "ids": ids, "title": self.g_title(rng)})
                 else:
                     t = self.g_title(rng) or [["t", "H"]]
@@ -745,7 +748,7 @@ class C15(core.PropertyCheck):
             if not sep or not hit:
                 return f"entry {e['key']} points to {e['uri']!r} but page {fid} carries no target with html id {anchor!r}"
             a = hit[0]
-            if e["name"] not in a["names"] or ALIASES.get(f"{a['domain']}:{a['name']}", f"{a['domain']}:{a['name']}") != role:
+            if e["name"] not in [re.sub(r"\s+", " ", x) for x in a["names"]] or ALIASES.get(f"{a['domain']}:{a['name']}", f"{a['domain']}:{a['name']}") != role:
                 return f"entry {e['key']} points to {e['uri']!r}, which is the anchor of {a} on {fid}"
         # every target of the project is listed under its canonical name. When one key is defined more than once
         # (a duplicate target; also `--opt` of one program vs. `prog.--opt`/`--opt` of another) the database keeps the first
@@ -755,6 +758,8 @@ class C15(core.PropertyCheck):
             for a in pg["anchors"]:
                 canonical = max(a["names"], key=lambda x: x.count("."))
                 role = f"{a['domain']}:{a['name']}"
+                # keys are whitespace-normalised (that is how the project keeps them and how consumers look names up)
+                canonical = re.sub(r"\s+", " ", canonical)
                 if first.get(f"{role}:{canonical}") != (fid, a["id"]):
                     continue
                 key = f"{ALIASES.get(role, role)}:{canonical}"
